@@ -106,6 +106,19 @@ def run_history(family, case, rec):
             last_mut = name
             epoch += 1
             rec.label("mut=%s" % name)
+            # the family's core state is compared after EVERY mutator (a
+            # stale intermediate used by the mutator itself shows there even
+            # when the query that exposed it is not asked again)
+            for cname in getattr(family, "always", ()):
+                try:
+                    a = family.queries[cname](obj, model)
+                    b = family.queries[cname](family.build(model), model)
+                except Exception:  # pylint: disable=broad-except
+                    continue       # judged by the ordinary queries
+                if not same(a, b, family.tol.get(cname, 1e-9)):
+                    rec.fail("%s_after_%s" % (cname, name),
+                             "object=%s fresh=%s maxdiff=%s" % (
+                                 _br(a), _br(b), _md(a, b)))
             continue
         q = family.queries[name]
         tol = family.tol.get(name, 1e-9)
@@ -896,6 +909,7 @@ class CrossRPFamily(Family):
     """CrossRecurrencePlot: threshold / rate setters and the public
     x_embedded / y_embedded attributes (distance matrices are memoised)."""
     name = "CrossRecurrencePlot"
+    always = ("recurrence_matrix",)
 
     def __init__(self):
         names = ["recurrence_matrix", "cross_recurrence_rate",
@@ -954,6 +968,7 @@ class InterSystemFamily(Family):
     thresholds / three rates) against the matrix, the rates and the
     network measures of a newly built object."""
     name = "InterSystemRecurrenceNetwork"
+    always = (".adjacency",)
 
     def __init__(self):
         names = ["inter_system_recurrence_matrix",
